@@ -185,34 +185,55 @@ def ulimit_runs(ctx, res, prop):
 
 
 def capture_fail_runs(ctx, res, prop):
-    """a failing capture pipe() (ulimit -n 7 / 8 before `$(a | b)`): the stage pipes must be released"""
+    """RLIMIT_NOFILE 4..40 before a CAPTURED pipeline of 1, 2, 3 stages (`x=$(...)`): whichever pipe() fails -- a stage
+    pipe, the first capture pipe, or the second one with the first already created -- the shell must hold exactly the
+    descriptors it held before (minfd AND the descriptor list a child inherits, compared in the same shell before and
+    after), nothing may have been started when the model says pipe() fails, and the model's table must be met."""
     hp = os.path.join(ctx.helpers, "hp")
-    known = known_classes(prop)
-    for N in (7, 8):
-        cases = {v: C.case("run", v, "1", "2", "-", "0,1,2", "E:-:-:-|E:-:-:-") for v in ("11101", "11111")}
-        mods = {v: F.parse_model(C.run_model(ctx.model["FDS"], C.write_cases("fds_cf_%d.txt" % os.getpid(), [c]))[0])
-                for v, c in cases.items()}
-        work = tempfile.mkdtemp(prefix="fdscf_")
-        try:
-            F.setup_work(work, ())
-            line = "ulimit -n %d ; %s @ O $(%s @ A.0 | %s @r A.1) ; minfd ; %s @ I.0" % (N, hp, hp, hp, hp)
-            rc, recs = F.run_real(ctx.cicada, line, work)
-            out_txt = open(os.path.join(work, "out.txt"), "rb").read()
-        finally:
-            shutil.rmtree(work, ignore_errors=True)
-        res.count("L2_capture_fail", 1)
-        res.nontrivial("capfail:%d" % N)
-        mf = [int(x) for x in re.findall(rb"(\d+)\n", out_txt)]
-        ran = sorted(k for k in recs if k.startswith("A."))
-        exp = {v: [F.lowest_free(m["shell"])] for v, m in mods.items()}
-        if ran:
-            res.violate(kind="oracle", layer="L2", input=line, observed="stages %s ran although the capture pipe() fails" % ran,
-                        failing_input=True, note="capture pipe failure is not handled")
-        elif mf == exp["11111"]:
-            pass
-        elif mf == exp["11101"] and "capture-pipe-fail" in known:
-            res.known("capture-pipe-fail", "class=capture-pipe-fail what=%s observed=`%s` -> minfd %s (3 expected)" % (
-                known["capture-pipe-fail"].get("what", "")[:100], line.replace(hp, "hp"), mf))
-        else:
-            res.violate(kind="oracle", layer="L2", input=line, observed="minfd %s" % mf, expected="minfd [3]", model=exp,
-                        failing_input=True, note="descriptors leak in the shell when a capture pipe() fails")
+    bad = 0
+    for n in (1, 2, 3):
+        for N in range(4, 41):
+            m = n - 1
+            # pipe() call k needs descriptors 3+2k and 4+2k: stage pipes 0..m-1, capture stdout = m, capture stderr = m+1
+            k0 = next((k for k in range(m + 2) if 4 + 2 * k >= N), None)
+            case = C.case("run", "11111", "1", str(k0) if k0 is not None else "-", "-", "0,1,2", "|".join(["E:-:-:-"] * n))
+            mo = F.parse_model(C.run_model(ctx.model["FDS"], C.write_cases("fds_cf_%d.txt" % os.getpid(), [case]))[0])
+            inner = " | ".join("%s @%so A.%d a" % (hp, "r," if i else "", i) for i in range(n))
+            line = "minfd ; %s @ B.0 ; ulimit -n %d ; x=$(%s) ; minfd ; %s @ I.0" % (hp, N, inner, hp)
+            work = tempfile.mkdtemp(prefix="fdscf_")
+            try:
+                F.setup_work(work, ())
+                rc, recs = F.run_real(ctx.cicada, line, work)
+                out_txt = open(os.path.join(work, "out.txt"), "rb").read()
+                err_txt = open(os.path.join(work, "err.txt"), "rb").read().decode("latin1")
+            finally:
+                shutil.rmtree(work, ignore_errors=True)
+            res.count("L2_capture_ulimit", 1)
+            which = "none" if k0 is None else ("stage%d" % k0 if k0 < m else ("capout" if k0 == m else "caperr"))
+            res.nontrivial("capul:%d:%s" % (n, which))
+            mf = [int(x) for x in re.findall(rb"(?m)^(\d+)$", out_txt)]
+            ran = sorted(k for k in recs if k.startswith("A."))
+            probs = []
+            if "B.0" not in recs or "I.0" not in recs:
+                probs.append("probe did not run (rc %s): %s" % (rc, sorted(recs)))
+            else:
+                b, a = sorted(recs["B.0"]["fds"]), sorted(recs["I.0"]["fds"])
+                if a != b:
+                    probs.append("a child started afterwards inherits descriptors %s (before: %s)" % (a, b))
+            if len(mf) >= 2 and mf[-1] != mf[0]:
+                probs.append("minfd %d before, %d after" % (mf[0], mf[-1]))
+            if len(mf) >= 1 and mf[0] != F.lowest_free(mo["shell"]) and not mo["err"]:
+                probs.append("minfd %s, model %s" % (mf, F.lowest_free(mo["shell"])))
+            if mo["err"] and ran:
+                probs.append("stages %s ran although pipe() call %d (%s) fails" % (ran, k0, which))
+            if not mo["err"] and len(ran) != n:
+                probs.append("stages ran: %s of %d" % (ran, n))
+            if mo["err"] and "pipeline" not in err_txt:
+                probs.append("no failure report on stderr")
+            if probs:
+                bad += 1
+                if bad <= 3:
+                    res.violate(kind="oracle", layer="L2", input=line.replace(hp, "hp"), N=N, stages=n, failing_pipe_call=which,
+                                observed=probs, model_shell_trace=mo["tr_shell"], failing_input=True,
+                                note="ulimit -n %d before a captured %d-stage pipeline: descriptors leak in the shell "
+                                     "(pipe() call that fails: %s)" % (N, n, which))
